@@ -175,6 +175,19 @@ def homogeneity(ctx: Ctx, spec, dtype):
     if spec.name == "IMTLG":
         k = rng.choice([k, rng.randint(44, 50), -rng.randint(30, 44)])       # scales 1e13..1e15 are in range
     t = 2.0 ** k
+    if spec.name == "Krum" and rng.random() < 0.5:
+        # many rows sharing a large common component (distances << norms) and a scale factor that is NOT a power of two:
+        # the selected row must not depend on the scale (it does when distances are computed through |a|²+|b|²-2ab)
+        m, n = rng.randint(27, 40), rng.choice([8, 16, 32])
+        J = (1000.0 + torch.randn(m, n, generator=g, dtype=torch.float64)).to(dtype)
+        t = rng.choice([3.0, 0.7, 1e-6, 12345.678, 1e10])
+        k = f"(t={t})"
+        D = torch.cdist(J.double(), J.double(), compute_mode="donot_use_mm_for_euclid_dist")
+        sc = D.topk(k=m - 1 - 2 + 1, largest=False).values[:, 1:].sum(dim=1).sort().values
+        if float(sc[1] - sc[0]) < 1e-3 * float(sc[0]):
+            ctx.count("krum_many_rows_skipped_near_tie")
+            return
+        ctx.count("krum_many_rows")
     if spec.threshold:
         s = float(torch.linalg.svdvals(J.double())[0])
         if min(s, s * t) < 1e-3:          # both sides must stay >= norm_eps (1e-4) with a margin
@@ -196,6 +209,14 @@ def homogeneity(ctx: Ctx, spec, dtype):
           "J": J.tolist(), "torch_seed": seed}
     if st1 != "ok" or st2 != "ok":
         ctx.violation(f"{spec.name} raised on J or t·J (t=2^{k}): {x1 if st1 != 'ok' else x2}", rp)
+        return
+    if isinstance(k, str):
+        # Krum(f, 1) returns one row of its input: the SAME row must be selected at both scales
+        i1 = [i for i in range(J.shape[0]) if torch.equal(J[i], x1)]
+        i2 = [i for i in range(J.shape[0]) if torch.equal(tJ[i], x2)]
+        if not i1 or not i2 or not (set(i1) & set(i2)):
+            ctx.violation(f"Krum on {J.shape[0]} rows selects row {i1} of J but row {i2} of t·J (t = {t}): the selection "
+                          f"depends on the scale of the matrix", rp)
         return
     lhs, rhs = x2.double(), x1.double() * t
     scale = float(rhs.abs().max())
